@@ -35,6 +35,10 @@ func stripNewFunc(t jsonapi.Type) jsonapi.Type { t.NewFunc = nil; return t }
 // genSchema: 1..3 types; a backed type is built with BuildType from the struct a user would declare.
 func genSchema(r *Rng, o *Out) (*jsonapi.Schema, []stype) {
 	names := []string{"t", "ts", "st"} // t+"s1" = ts+"1" and "1s"+t = "1"+st: joined strings collide
+	if r.chance(1, 5) {
+		names = []string{"t", "T", "st"} // names that differ by letter case only are different types
+		o.stat("schema.case-variant-names")
+	}
 	n := 1 + r.IntN(3)
 	s := &jsonapi.Schema{}
 	var ts []stype
@@ -50,6 +54,15 @@ func genSchema(r *Rng, o *Out) (*jsonapi.Schema, []stype) {
 			o.stat("type.backed")
 		} else {
 			o.stat("type.soft")
+			if r.chance(1, 4) {
+				// a type written as a literal may leave FromType out: the definition is
+				// what the schema holds, as it is
+				for k, rel := range typ.Rels {
+					rel.FromType = ""
+					typ.Rels[k] = rel
+				}
+				o.stat("type.rels-without-fromtype")
+			}
 		}
 		putType(s, typ)
 		ts = append(ts, stype{typ, backed})
@@ -930,11 +943,12 @@ func suiteLiterals(r *Rng, n int, thorough bool, o *Out) {
 		putType(sB, bt)
 		ssxB = sxSSchema([]stype{{bt, true}})
 	}
+	force := 0 // 1: into the soft type, 2: into the struct-built type, 0: drawn
 	emitOne := func(name, lit string) {
 		a := typ.Attrs[name]
 		data := []byte(`{"id":"1","type":"t","attributes":{` + jstr(name) + `:` + lit + `}}`)
 		s, ssx := s, ssx
-		if ssxB != "" && r.chance(1, 3) {
+		if ssxB != "" && (force == 2 || (force == 0 && r.chance(1, 3))) {
 			s, ssx = sB, ssxB
 			o.stat("into-struct")
 		}
@@ -992,6 +1006,28 @@ func suiteLiterals(r *Rng, n int, thorough bool, o *Out) {
 			}
 		}
 	}
+	// directed rows, every run: null and the simplest valid literal for every kind, nullable
+	// and not, into the soft type and into the struct-built one
+	for k := 1; k <= 14; k++ {
+		simple := "0"
+		switch k {
+		case jsonapi.AttrTypeString:
+			simple = `""`
+		case jsonapi.AttrTypeBool:
+			simple = "false"
+		case jsonapi.AttrTypeTime:
+			simple = `"2018-02-03T04:05:06Z"`
+		case jsonapi.AttrTypeBytes:
+			simple = `""`
+		}
+		for force = 1; force <= 2; force++ {
+			for _, nm := range []string{jsonapi.GetAttrTypeString(k, false), "n" + jsonapi.GetAttrTypeString(k, false)} {
+				emitOne(nm, "null")
+				emitOne(nm, simple)
+			}
+		}
+	}
+	force = 0
 	for c := 0; c < n; c++ {
 		k := 1 + r.IntN(14)
 		name := jsonapi.GetAttrTypeString(k, false)
